@@ -36,7 +36,8 @@ ASSUMPTIONS = [
     "or heavily shared machine widens the budget, never narrows it.",
 ]
 MIN_NONTRIVIAL = {'quick': 5000, 'thorough': 30000}
-REQUIRED_MONITORS = ['timer:PLSSDesc', 'timer:Tract', 'calibration', 'repeat']
+REQUIRED_MONITORS = ['timer:PLSSDesc', 'timer:Tract', 'calibration', 'repeat',
+                     'structural:mode']
 SHARD_TIMEOUT = {'quick': 900, 'thorough': 5400}
 
 UNITS = [
@@ -81,6 +82,9 @@ LADDER = (62, 125, 250)
 WIDE_RANGE_UNITS = ('1-999-', '1-999, ', '-999', ' 1 - 500,', '1 thru 900 and ')
 REPEAT_CONFIGS = ['ocr_scrub', 'clean_qq,parse_qq', 'segment,sec_within',
                   'sec_colon_cautious', 'ocr_scrub,segment,parse_qq', '']
+STRUCTURAL_CONFIGS = ['ocr_scrub,parse_qq', 'clean_qq,parse_qq',
+                      'segment,parse_qq', 'sec_within', 'ocr_scrub,segment',
+                      'sec_colon_cautious,parse_qq', 'ocr_scrub']
 # A shard that has confirmed this many violations stops measuring (each
 # costs three cut-off runs); the verdict is already decided.
 MAX_CONFIRMED_PER_SHARD = 3
@@ -332,9 +336,14 @@ def run_shard(shard, ctx):
                       text, budget)
         return
     if fam == 'structural':
-        for text, what in _structural():
+        for idx, (text, what) in enumerate(_structural()):
             judge(ctx, pytrs, {'family': 'structural', 'what': what}, text,
                   budget)
+            # ... and under one of the optional modes, in rotation
+            cfg = STRUCTURAL_CONFIGS[idx % len(STRUCTURAL_CONFIGS)]
+            ctx.hit('structural:mode')
+            judge(ctx, pytrs, {'family': 'structural', 'what': what,
+                               'cfg': cfg}, text, budget)
         return
     if fam == 'soup':
         from ..gen import soup
@@ -367,6 +376,13 @@ def _structural():
                     f"distinct-twprge-lines:{k}"))
         out.append(("; ".join([f"NE/4 of Sec {i + 1}, T154N-R97W" for i in range(k)]),
                     f"desc_STR-entries:{k}"))
+    for k in (12, 14, 16, 18, 20, 24, 30):
+        # many short lines naming the same Twp/Rge
+        out.append(("T4N-R5W\n" * k, f"rep-twprge-only:{k}"))
+        out.append(("\n".join(f"T4N-R5W Sec {i + 1}: ALL" for i in range(k)),
+                    f"rep-twprge-short-lines:{k}"))
+        out.append(("\n".join(f"Sec {i + 1}: ALL, T4N-R5W" for i in range(k)),
+                    f"rep-twprge-sec-first-lines:{k}"))
     for k in range(1, 7):
         # the same wording (same warning, same context) on every line
         line = "T154N-R97W Sec 14: NE/4, less and except the wellbore"
